@@ -605,13 +605,55 @@ obligations even when no sampled input or schedule shows a difference; the check
 a failing input. -/
 theorem c08_shape_tls_makeVerifier :
     Shapes.network_tls_makeVerifier =
-   ["mkNonce", "return:func,nonce"] := rfl
+   ["mkNonce", "func{", "defer{", "if:(err==nil)", "else", "}", "if:(len(rawCerts)!=1)",
+     "return:xerrors.New(\"\")", "x509.ParseCertificates", "if:(err!=nil)", "return:err",
+     "if:(len(certs)!=1)", "return:xerrors.New(\"\")", "x509.NewCertPool", "self.AddCert",
+     "cert.Verify", "if:(err!=nil)", "return:xerrors.Errorf(\"\",err)", "if:(them!=nil)",
+     "if:(len(cert.URIs)>0)", "if:((u.Scheme==\"\")&&(u.Opaque==cn))", "if:!found",
+     "return:xerrors.Errorf(\"\",pubToCN(them.Public))", "else",
+     "if:(cert.Subject.CommonName!=pubToCN(them.Public))",
+     "return:xerrors.Errorf(\"\",cert.Subject.CommonName)", "if:oidDedisSig.Equal(x.Id)",
+     "if:(sig==nil)", "return:xerrors.New(\"\")", "pubFromCN", "if:(err!=nil)",
+     "return:xerrors.Errorf(\"\",err)", "if:((them!=nil)&&!pub.Equal(them.Public))",
+     "return:xerrors.Errorf(\"\",cn)", "bytes.NewBuffer", "asn1.Marshal", "if:(err!=nil)",
+     "return:xerrors.Errorf(\"\",err)", "buf.Write", "buf.Bytes", "schnorr.Verify",
+     "if:(err!=nil)", "return:xerrors.Errorf(\"\",err)", "return:nil", "}", "return:func,nonce"] := rfl
 
 theorem c08_shape_tls_certMaker_get :
     Shapes.network_tls_certMaker_get =
-   ["bytes.NewBuffer", "buf.Write", "si.GetPrivate", "buf.Bytes", "schnorr.Sign", "random.New",
-     "random.Bits", "serial.SetBytes", "url.Parse", "time.Now", "Now().Add", "time.Now",
-     "Now().Add", "k.Public", "x509.CreateCertificate", "x509.ParseCertificates"] := rfl
+   ["if:(len(nonce)!=nonceSize)", "return:nil,xerrors.New(\"\")", "bytes.NewBuffer", "buf.Write",
+     "si.GetPrivate", "buf.Bytes", "schnorr.Sign", "if:(err!=nil)",
+     "return:nil,xerrors.Errorf(\"\",err)", "random.New", "random.Bits", "serial.SetBytes",
+     "url.Parse", "if:(err!=nil)", "return:nil,err", "time.Now", "Now().Add", "time.Now",
+     "Now().Add", "if:testNoURIs", "k.Public", "x509.CreateCertificate", "if:(err!=nil)",
+     "return:nil,xerrors.Errorf(\"\",err)", "x509.ParseCertificates", "if:(err!=nil)",
+     "return:nil,xerrors.Errorf(\"\",err)", "if:(len(certs)<1)", "return:nil,xerrors.New(\"\")",
+     "return:&?,nil"] := rfl
+
+theorem c08_shape_tls_certMaker_getCertificate :
+    Shapes.network_tls_certMaker_getCertificate =
+   ["cm.get"] := rfl
+
+theorem c08_shape_tls_certMaker_getClientCertificate :
+    Shapes.network_tls_certMaker_getClientCertificate =
+   ["if:(len(req.AcceptableCAs)==0)", "return:nil,xerrors.New(\"\")", "cm.get", "if:(err!=nil)",
+     "return:nil,xerrors.Errorf(\"\",err)", "return:cert,nil"] := rfl
+
+theorem c08_shape_tls_pubFromCN :
+    Shapes.network_tls_pubFromCN =
+   ["if:(len(cn)<1)", "return:nil,xerrors.New(\"\")", "hex.DecodeString", "if:(err!=nil)",
+     "return:nil,xerrors.Errorf(\"\",err)", "bytes.NewBuffer", "suite.Point",
+     "pub.UnmarshalFrom", "if:(err!=nil)", "return:nil,xerrors.Errorf(\"\",err)",
+     "return:pub,nil", "encoding.StringHexToPoint", "if:(err!=nil)",
+     "return:nil,xerrors.Errorf(\"\",err)", "return:pub,nil"] := rfl
+
+theorem c08_shape_tls_pubToCN :
+    Shapes.network_tls_pubToCN =
+   ["pub.MarshalTo", "w.Bytes", "hex.EncodeToString"] := rfl
+
+theorem c08_shape_tls_mkNonce :
+    Shapes.network_tls_mkNonce =
+   ["s.RandomStream", "random.Bytes", "bytes.ContainsAny", "s.RandomStream", "random.Bytes"] := rfl
 
 theorem c08_shape_tls_NewTLSListenerWithListenAddr :
     Shapes.network_tls_NewTLSListenerWithListenAddr =
